@@ -6,6 +6,7 @@ mod c15;
 mod c16;
 mod c17;
 mod c19;
+mod cfail;
 mod driver;
 mod e2;
 mod pat;
@@ -65,6 +66,15 @@ fn main() {
     let args: Vec<String> = std::env::args().skip(1).collect();
     if args.is_empty() {
         usage();
+    }
+    if args[0] == "--sub-json" {
+        // `progen --sub-json <C12|C14> <tier>`: one sub-report as JSON (used by the rt engine)
+        let which = args.get(1).cloned().unwrap_or_default();
+        let tier = if args.get(2).map(|s| s == "thorough").unwrap_or(false) { Tier::Thorough } else { Tier::Quick };
+        let ctx = Ctx::new(&which, tier);
+        let rep = cfail::run(&ctx, &which);
+        println!("{}", serde_json::to_string(&rep.to_json()).unwrap());
+        return;
     }
     if args[0] == "--replay" {
         let Some(path) = args.get(1) else { usage() };
